@@ -12,6 +12,7 @@ import (
 
 	"github.com/marekgalovic/anndb/cluster"
 	pb "github.com/marekgalovic/anndb/protobuf"
+	"github.com/marekgalovic/anndb/services"
 	"github.com/marekgalovic/anndb/storage"
 	"github.com/marekgalovic/anndb/storage/raft"
 	"github.com/marekgalovic/anndb/utils"
@@ -134,6 +135,15 @@ func runC10(a *args) error {
 				objs = append(objs, d)
 			}
 			bad := ""
+			// reading a dataset's description through the service (what `datasets get` does) leaves the catalogue entry -
+			// the order of its partitions is the routing table of every node built from it later - as it was
+			if _, gerr := services.NewDatasetManagerServer(storage.VerifNewDatasetManager(objs[0])).Get(context.Background(), &pb.GetDatasetRequest{DatasetId: meta.Id}); gerr == nil {
+				for i, p := range objs[0].Meta().GetPartitions() {
+					if bad == "" && uuid.FromBytesOrNil(p.GetId()) != uuid.FromBytesOrNil(meta.Partitions[i].Id) {
+						bad = fmt.Sprintf("after a Get request the catalogue entry lists partition %s at position %d, it was created with %s there (a node built from the next catalogue snapshot routes differently)", uuid.FromBytesOrNil(p.GetId()), i, uuid.FromBytesOrNil(meta.Partitions[i].Id))
+					}
+				}
+			}
 			for k, d := range objs {
 				for i := 0; i < pc && bad == ""; i++ {
 					if d.VerifPartitionId(i) != uuid.FromBytesOrNil(meta.Partitions[i].Id) {
